@@ -288,10 +288,12 @@ func kvTreeJobs(prop string, q bool, add func(kind, id string, w int, s map[stri
 	}
 	// large trees under non-monotone histories (family.go churnJob)
 	cu := pick(48, 96)
-	for _, t := range []tb{{"rbt", 0, cu}, {"avl", 0, cu}, {"treemap", 0, cu}, {"treeset", 0, cu}, {"btree", 3, cu}, {"btree", 4, cu}, {"btree", 5, cu}, {"btree", 8, cu}} {
+	// (orders 6, 7, 9: an inner node of height 3 next to a FULL inner sibling - where a borrow may move more than
+	// one subtree - needs ~30 keys at order 6 and more above; after seeded change C17-14)
+	for _, t := range []tb{{"rbt", 0, cu}, {"avl", 0, cu}, {"treemap", 0, cu}, {"treeset", 0, cu}, {"btree", 3, cu}, {"btree", 4, cu}, {"btree", 5, cu}, {"btree", 6, cu}, {"btree", 7, cu + 16}, {"btree", 8, cu}, {"btree", 9, cu + 32}} {
 		for _, c := range []string{"nat", "rev"} {
-			id := fmt.Sprintf("%s%s.%s.churn.u%d", t.c, map[bool]string{true: fmt.Sprint(t.m), false: ""}[t.m > 0], c, cu)
-			add("churn", id, cu*4, map[string]string{"c": t.c, "cmp": c}, map[string]int{"m": t.m, "u": cu})
+			id := fmt.Sprintf("%s%s.%s.churn.u%d", t.c, map[bool]string{true: fmt.Sprint(t.m), false: ""}[t.m > 0], c, t.n)
+			add("churn", id, cu*4, map[string]string{"c": t.c, "cmp": c}, map[string]int{"m": t.m, "u": t.n})
 		}
 	}
 	// comparators that answer math.MinInt / 0 / math.MaxInt: a valid order whose results cannot be negated
